@@ -387,14 +387,14 @@ def check_prim(rep: Rep, pre: str, comp: Competition) -> None:
 
 def strip_override(v: Term) -> Tuple[Term, List[Term]]:
     """v = sel(c1, -FLOAT_MAX, sel(c2, -FLOAT_MAX, base)) -> (base, [c1, c2]) (either arm order)."""
-    worst = (("neg", K("FLOAT_MAX")), ("bin", "*", ("const", -1), K("FLOAT_MAX")))
+    from .ir import is_neg_float_max
     conds = []
     while v[0] == "sel":
         c, a, b = v[1], v[2], v[3]
-        if a in worst:
+        if is_neg_float_max(a):
             conds.append(c)
             v = b
-        elif b in worst:
+        elif is_neg_float_max(b):
             conds.append(mk_not(c))
             v = a
         else:
